@@ -352,6 +352,17 @@ def tinyvars(spec, s):
     problem, every length (x0, bounds, radii, linear coefficients) in the new
     unit.  Steps late in such a run are far below 1e-13 in absolute terms."""
     n = spec["n"]
+    mags = [np.abs(np.asarray(spec["x0"], float))]
+    if spec.get("bounds"):
+        mags += [np.abs(np.asarray(spec["bounds"][k], float))
+                 for k in ("lb", "ub")]
+    big = max((float(np.max(m[np.isfinite(m)], initial=0.0)) for m in mags),
+              default=0.0)
+    if not all(np.all(np.isfinite(m) | np.isinf(m)) for m in mags) or \
+            big * s > 1e150 or not np.all(np.isfinite(mags[0])):
+        # huge boxes: the new unit would overflow (x0 = inf is no problem
+        # statement at all)
+        return spec
     if spec.get("bounds"):
         w = (np.asarray(spec["bounds"]["ub"], float)
              - np.asarray(spec["bounds"]["lb"], float)) * s
